@@ -17,14 +17,15 @@ HeaderMut == {"parent_unknown", "parent_grand", "miner_other", "version_root", "
               "time_future", "time_future_rebuilt", "extra_long", "extra_other"}
 \* corruptions that leave the header hash alone
 BodyMut == {"none", "sig_reencoded", "sig_garbage", "txs_drop", "txs_dup", "txs_swap", "logs_drop", "confirm_garbage"}
-\* ---- family "tx": T re-executed by the real assembler with a THIRD transaction Z of some class, signed by the right deputy
+\* ---- family "tx": T re-executed by the real assembler with more transactions Z (one, for some classes two) of some class, signed by the right deputy
 \* (every root and gas figure is consistent; only Z itself may be ill-formed, expired or a replay).  bt = the block's time,
 \* L = the maximum transaction lifetime; block A1 (an ancestor of T in scenarios 2 and 3) carries a transfer X.
 ZValid == {"z_ok",                \* one more ordinary transfer
            "z_exp_now",           \* expires exactly at bt
            "z_exp_max",           \* expires exactly at bt + L
            "z_box_ok",            \* a box of two transfers
-           "z_box_sub_exp_max"}   \* a box expiring soon whose sub-transaction expires exactly at bt + L
+           "z_box_sub_exp_max",   \* a box expiring soon whose sub-transaction expires exactly at bt + L
+           "z_two_boxes_ok"}      \* two boxes with different sub-transactions
 ZForm == {"z_expired",            \* expired one second before bt
           "z_too_far",            \* expires at bt + L + 1
           "z_chain",              \* signed for another chain id
@@ -35,7 +36,11 @@ ZForm == {"z_expired",            \* expired one second before bt
           "z_box_in_box"}         \* a box inside a box
 ZReplay == {"z_replay_anc",         \* Z = X, already executed in ancestor A1 (a replay in scenarios 2 and 3 only)
             "z_box_sub_replay_anc", \* X again, as a sub-transaction of a box
-            "z_box_sub_replay_T"}   \* T's own first transaction again, as a sub-transaction of a box in the same block
+            "z_box_sub_replay_T",   \* T's own first transaction again, as a sub-transaction of a box in the same block
+            "z_box_then_sub",       \* a box, and later in the same block one of its sub-transactions on its own
+            "z_sub_then_box",       \* the other order
+            "z_two_boxes_share",    \* two boxes of one block sharing a sub-transaction
+            "z_box_sub_twice"}      \* one box listing the same sub-transaction twice
 ZOpt == {"z_box_sub_before_box"}  \* sub-transaction unexpired at bt but expiring before its box: no condition of the property
 ZMut == ZValid \cup ZForm \cup ZReplay \cup ZOpt
 Mut == HeaderMut \cup BodyMut \cup ZMut
@@ -53,7 +58,7 @@ Breaks(m, r) ==
   (IF SignerBroken(m, r) THEN {"signer"} ELSE {})
   \cup (IF m \in ZForm THEN {"txform"} ELSE {})
   \cup (IF m \in {"z_box_sub_replay_anc", "z_replay_anc"} /\ scen \in {2, 3} THEN {"replay"} ELSE {})
-  \cup (IF m = "z_box_sub_replay_T" THEN {"replay"} ELSE {})
+  \cup (IF m \in {"z_box_sub_replay_T", "z_box_then_sub", "z_sub_then_box", "z_two_boxes_share", "z_box_sub_twice"} THEN {"replay"} ELSE {})
   \cup (CASE m = "parent_unknown" -> {"parent"}
           [] m \in {"parent_grand", "height_plus", "height_minus", "height_plus_rebuilt", "height_minus_rebuilt"} -> {"height"}
           [] m \in {"time_before_parent", "time_future", "time_future_rebuilt"} -> {"time"}
